@@ -3,8 +3,8 @@
 From Coq Require Import List NArith ZArith Bool.
 From Coq.Strings Require Import Byte.
 Require Import GV.Base.Res GV.Base.Byt GV.Base.Ints.
-Require Import GV.Model.Leb GV.Model.Prim GV.Model.OpDec GV.Model.OpVal GV.Model.OpEval GV.Spec.StackSpec.
-Require Import GV.Proofs.OpDecProofs GV.Proofs.OpValProofs GV.Proofs.OpEvalProofs.
+Require Import GV.Model.Leb GV.Model.Prim GV.Model.OpDec GV.Model.OpVal GV.Model.OpEval GV.Spec.StackSpec GV.Spec.StackMachine.
+Require Import GV.Proofs.OpDecProofs GV.Proofs.OpValProofs GV.Proofs.OpEvalProofs GV.Proofs.OpEvalRefine.
 Import ListNotations.
 Local Open Scope N_scope.
 
@@ -238,6 +238,70 @@ Example normalised_ex_shift :   (* lit1; const4u 0x80000001; lit1; shl; shl on a
       [x31; x0c; x01; x00; x00; x80; x31; x24; x24] [] =
     ([], FComplete [mkPiece None None (LAddress 4)] (Some (mkV TGeneric 4)) 5 5).
 Proof. split; vm_compute; reflexivity. Qed.
+(* ------------------------------------------------------------------------------------------------
+   4. Refinement of the whole evaluator.  Spec/StackMachine.v is the DWARF stack machine over CANONICAL values
+   (spec_step: one decoded operation through the value algebra sp_* of Spec/StackSpec.v; spec_run: the whole
+   conversation with the consumer).  abs_trace sz reads a model trace canonically: requests and the final error
+   variant unchanged, generic values inside pieces (DW_OP_stack_value) and the value result reduced modulo
+   2^(8 sz).  For EVERY program (byte list), every configuration whose fields are Rust values (cfg_ok: address
+   size sz in {1,2,4,8}, any format/version/byte order, u64 initial value and object address, u32 iteration
+   limit or none, any storage capacities, the faithful model c_canon = None), every answer list of Rust values
+   (wf_answer), both build modes, every fuel and every float implementation whose results fit their width
+   (fops_wf: any IEEE implementation):
+       the canonical reading of the model evaluator's trace IS the trace of the stack machine.
+   Proof: one-step simulation step_sim (evaluate_one_operation vs spec_one under abs_st = "stack values modulo
+   2^(8 sz)", every one of the 59 operations, typed/float operations, calls, entry values and pieces included),
+   preservation of the invariant (pc inside the bytecode, counter within the limit, stack of Rust values), then
+   induction on the fuel (ei_sim) and on the answer list (drive_sim).  The statement holds for every fuel, so both
+   sides run out of fuel together (refines_out_of_fuel); in particular it holds whenever neither does. *)
+Theorem eval_refines : forall (F : fops) (sz : N) (dbg : bool) (c : cfg) (fuel : nat) (program : list byte)
+    (answers : list answer),
+  addr_size sz -> fops_wf F -> cfg_ok sz c -> Forall wf_answer answers ->
+  abs_trace sz (run F fuel dbg c program answers) = spec_run sz F fuel c program answers.
+Proof. exact eval_refines_lemma. Qed.
+
+Theorem refines_out_of_fuel : forall (F : fops) (sz : N) (dbg : bool) (c : cfg) (fuel : nat) (program : list byte)
+    (answers : list answer),
+  addr_size sz -> fops_wf F -> cfg_ok sz c -> Forall wf_answer answers ->
+  (snd (run F fuel dbg c program answers) = FOutOfFuel <-> snd (spec_run sz F fuel c program answers) = FOutOfFuel).
+Proof. exact refines_fuel. Qed.
+
+(* One step, as used by the induction: decoding and executing the operation at the pc in the model, read
+   canonically, is decoding it by the operand-layout table and executing it in the stack machine. *)
+Theorem step_refines : forall (F : fops) (sz : N) (dbg : bool) (c : cfg) (s : st),
+  addr_size sz -> fops_wf F -> cfg_ok sz c -> wf_st s ->
+  mapr sz (evaluate_one_operation F dbg c (amask sz) s) = spec_one sz F (abs_cfg sz c) (abs_st sz s).
+Proof. intros F sz dbg c s SZ HF. exact (step_sim sz F SZ HF dbg c s). Qed.
+
+(* Whole-evaluation mask invariance ("generic values are compared modulo the address size"): two conversations
+   on the same program whose initial value, object address and answers are equal modulo 2^(8 sz) on generic
+   payloads (abs_cfg / abs_answer equal; typed values equal) -- possibly in different build modes -- produce the
+   same requests, the same error, and the same pieces / value result up to the same reading. *)
+Theorem mask_invariance : forall (F : fops) (sz : N) (dbg dbg' : bool) (c c' : cfg) (fuel : nat) (program : list byte)
+    (answers answers' : list answer),
+  addr_size sz -> fops_wf F -> cfg_ok sz c -> cfg_ok sz c' -> Forall wf_answer answers -> Forall wf_answer answers' ->
+  abs_cfg sz c = abs_cfg sz c' -> map (abs_answer sz) answers = map (abs_answer sz) answers' ->
+  abs_trace sz (run F fuel dbg c program answers) = abs_trace sz (run F fuel dbg' c' program answers').
+Proof. exact mask_invariance_lemma. Qed.
+
+(* the hypotheses are met by a non-trivial instance: 4-byte target, initial value 2^32+2, object address 2^32+5,
+   an answer with all 64 bits set; and the two readings of a dirty run *)
+Example refines_ex_hyp : addr_size 4 /\ fops_wf wrap_fops /\ cfg_ok 4 refine_ex_cfg /\
+  Forall wf_answer [mkAns (mkV TGeneric 18446744073709551615) 4294967297 [] TU8].
+Proof. exact refine_ex_hyp. Qed.
+Example refines_ex_run :   (* init 2^32+2; push_object_address (2^32+5); minus; neg; stack_value: model keeps 3 in a 64-bit container *)
+  run wrap_fops 9 true refine_ex_cfg [x97; x1c; x1f; x9f] [] =
+    ([], FComplete [mkPiece None None (LValue (mkV TGeneric 3))] None 4 4) /\
+  spec_run 4 wrap_fops 9 refine_ex_cfg [x97; x1c; x1f; x9f] [] =
+    ([], FComplete [mkPiece None None (LValue (mkV TGeneric 3))] None 4 4) /\
+  run wrap_fops 9 true refine_ex_cfg [x1f; x9f] [] =
+    ([], FComplete [mkPiece None None (LValue (mkV TGeneric 18446744073709551614))] None 2 2) /\
+  spec_run 4 wrap_fops 9 refine_ex_cfg [x1f; x9f] [] =
+    ([], FComplete [mkPiece None None (LValue (mkV TGeneric 4294967294))] None 2 2).
+Proof. repeat split; vm_compute; reflexivity. Qed.
+Example mask_invariance_ex :   (* initial values 2 and 2^32+2 are the same generic value on a 4-byte target *)
+  abs_cfg 4 refine_ex_cfg = abs_cfg 4 (mkCfg (mkEnc 4 false 4 false) (Some 5) (Some 40) (Some 2) None None None None).
+Proof. vm_compute. reflexivity. Qed.
 Check decode_table : forall (dbg : bool) (e : enc) (opc : byte) (bs : list byte),
   parse_op dbg e (opc :: bs) = generic_decode dbg e opc bs.
 Check decode_no_panic : forall (dbg : bool) (e : enc) (bs : list byte),
@@ -246,3 +310,12 @@ Check iteration_bound : forall (F : fops) (dbg : bool) (c : cfg) (n : N) (fuel :
     (program : list byte) (answers : list answer),
   c_max c = Some n -> n <= 4294967295 -> e_asz (c_enc c) <= 8 -> (N.to_nat n < fuel)%nat ->
   bounded_final n (snd (run F fuel dbg c program answers)).
+Check eval_refines : forall (F : fops) (sz : N) (dbg : bool) (c : cfg) (fuel : nat) (program : list byte)
+    (answers : list answer),
+  addr_size sz -> fops_wf F -> cfg_ok sz c -> Forall wf_answer answers ->
+  abs_trace sz (run F fuel dbg c program answers) = spec_run sz F fuel c program answers.
+Check mask_invariance : forall (F : fops) (sz : N) (dbg dbg' : bool) (c c' : cfg) (fuel : nat) (program : list byte)
+    (answers answers' : list answer),
+  addr_size sz -> fops_wf F -> cfg_ok sz c -> cfg_ok sz c' -> Forall wf_answer answers -> Forall wf_answer answers' ->
+  abs_cfg sz c = abs_cfg sz c' -> map (abs_answer sz) answers = map (abs_answer sz) answers' ->
+  abs_trace sz (run F fuel dbg c program answers) = abs_trace sz (run F fuel dbg' c' program answers').
